@@ -20,7 +20,7 @@ import (
 
 func init() { register("C09", runC09) }
 
-var c09Events = []string{"S.connect(clean0)", "S.subscribe(t,q1)", "S.subscribe($share/g/t,q2,id7)", "S.unsubscribe(t)", "P.connect(clean0)", "P.publish(q1)", "P.publish(q2)", "P.pubrel", "S.ack-step", "S.close"}
+var c09Events = []string{"S.connect(clean0)", "S.subscribe(t,q1)", "S.subscribe($share/g/t,q2,id7)", "S.unsubscribe(t)", "P.connect(clean0)", "P.publish(q1)", "P.publish(q2)", "P.pubrel", "S.ack-step", "S.close", "two clients without session expiry ('a0', 'm0') connect and stay"}
 
 const c09Sub, c09Pub = "sub1", "a1"
 
@@ -105,6 +105,7 @@ func c09Phase1(c *explore.Ctx, seq []int, cas func() any) (*c09Hist, int) {
 		}
 		var S, P *harness.Client
 		sOn, pOn := false, false
+		ephemeral := false
 		exp := func() *refmqtt.Props { return &refmqtt.Props{SessionExpiry: harness.U32(3600)} }
 		npub := 0
 		type deliv struct {
@@ -270,6 +271,21 @@ func c09Phase1(c *explore.Ctx, seq []int, cas func() any) (*c09Hist, int) {
 				S.Close()
 				vsched.Settle()
 				sOn = false
+			case 10:
+				// clients whose session ends with the connection: their records are in the store at
+				// the moment of the crash, sorted before / between the persistent ones
+				if ephemeral {
+					valid = false
+					break
+				}
+				ephemeral = true
+				for _, id := range []string{"a0", "m0"} {
+					E := w.Dial(fmt.Sprintf("E%s%d", id, i))
+					if ack := E.Connect(harness.ConnectOpts{ClientID: id, Clean: true, Version: refmqtt.V5}); ack == nil || ack.Code != 0 {
+						c.Violate("history", "ephemeral-connect-refused", cas(), "CONNACK", fmt.Sprint(ack, w.Closeds))
+						return
+					}
+				}
 			}
 			if !valid {
 				return
@@ -569,7 +585,7 @@ func c09Run(c *explore.Ctx, seq []int) int {
 
 func runC09(c *explore.Ctx) {
 	c.Level = "fault_enumeration"
-	c.Rule = "E4: client histories (two persistent v5 sessions: subscribe incl. a shared filter with subscription id, unsubscribe, QoS1/QoS2 publishes, PUBREL, subscriber ack steps, disconnect/reconnect) are enumerated as a tree (directed prefix + depth) on a real in-process broker using the redis persistence backend over an in-process RESP server that journals every write command with a logical stamp. For EVERY prefix of the journal (a crash between two storage commands) the store is rebuilt, a fresh broker is started on it, and checked: start-up succeeds; sessions whose CONNACK was sent before the crash exist under their id; subscriptions equal the SUBACK/UNSUBACK-acknowledged ones; publisher-acknowledged, subscriber-unacknowledged QoS>0 messages are redelivered on Clean Start 0; QoS2 ids awaiting PUBREL are still recognised, their flows complete on the restarted broker (PUBREL -> PUBCOMP) and a new message under the completed identifier is forwarded. evaluations = restarted brokers; distinct_nontrivial = journal commands (distinct crash points)."
+	c.Rule = "E4: client histories (two persistent v5 sessions, optionally two connected clients without session expiry whose records sit next to them in the store: subscribe incl. a shared filter with subscription id, unsubscribe, QoS1/QoS2 publishes, PUBREL, subscriber ack steps, disconnect/reconnect) are enumerated as a tree (directed prefix + depth) on a real in-process broker using the redis persistence backend over an in-process RESP server that journals every write command with a logical stamp. For EVERY prefix of the journal (a crash between two storage commands) the store is rebuilt, a fresh broker is started on it, and checked: start-up succeeds; sessions whose CONNACK was sent before the crash exist under their id; subscriptions equal the SUBACK/UNSUBACK-acknowledged ones; publisher-acknowledged, subscriber-unacknowledged QoS>0 messages are redelivered on Clean Start 0; QoS2 ids awaiting PUBREL are still recognised, their flows complete on the restarted broker (PUBREL -> PUBCOMP) and a new message under the completed identifier is forwarded. evaluations = restarted brokers; distinct_nontrivial = journal commands (distinct crash points)."
 	c.Trusted = []string{"respd: fidelity to redis for the 14 commands gmqtt issues (implemented from the command reference; real redis is not installed)", "vsched default schedule, logical stamps ordering storage commands and packets"}
 	c.Assumptions = []string{"redis executes each command atomically, so crash points are command boundaries (pipelined commands are split)", "an operation whose acknowledgement had not been sent before the crash may be in either state"}
 	if rc := replayCase(c); rc != nil {
